@@ -11,7 +11,7 @@ cleanup() { git -C /repo worktree remove --force "$S.repo" >/dev/null 2>&1; rm -
 trap cleanup EXIT
 git -C "$S.repo" apply "$P" || { echo "patch does not apply"; exit 2; }
 mkdir -p "$S.verif"
-cp -r /verif/harness "$S.verif/harness"
+cp -r "${HARNESS_SRC:-/verif/harness}" "$S.verif/harness"
 cp /verif/KNOWN_FINDINGS.txt "$S.verif/" 2>/dev/null
 sed -i "s#=> /repo#=> $S.repo#" "$S.verif/harness/go.mod"
 mkdir -p "$S.verif/bin"
